@@ -954,6 +954,103 @@ pub fn check_echo(
     }
 }
 
+/// ECHO-output of C02: every output of the emitted transaction holds exactly the value of the
+/// amount expression the generator wrote for it, evaluated with big-integer arithmetic from the
+/// arguments, the fee in the body and the UTxOs bound to the input blocks in the returned round.
+/// Judged only when every component of the expected value fits its ledger field (the out-of-range
+/// cases are BAL's), when no term is a min_utxo(..) and when the emitted outputs can be lined up
+/// with the template's (optional outputs are dropped exactly when they hold nothing; publish
+/// outputs are appended).
+pub fn check_echo_outputs(
+    rep: &mut crate::core::WorldReport,
+    p: &Program,
+    tx: &TxSpec,
+    args: &ArgMap,
+    d: &crate::txread::DTx,
+    bindings: &BTreeMap<String, Vec<Utxo>>,
+    ctx: &str,
+) {
+    let eval = |a: &Amount| -> Option<Value> {
+        let mut v = Value::new();
+        for (neg, term) in &a.0 {
+            let part: Value = match term {
+                Term::Input(name) => {
+                    let sel = bindings.get(&name.to_lowercase())?;
+                    let mut sum = Value::new();
+                    for u in sel {
+                        for (k, x) in utxo_value(u) {
+                            let e = sum.entry(k).or_insert(0i128);
+                            *e = e.checked_add(x)?;
+                        }
+                    }
+                    sum
+                }
+                Term::MinUtxo(_) => return None,
+                other => eval_amount(p, &Amount(vec![(false, other.clone())]), args, Some(d.fee), None)?,
+            };
+            for (k, x) in part {
+                let e = v.entry(k).or_insert(0i128);
+                *e = if *neg { e.checked_sub(x)? } else { e.checked_add(x)? };
+            }
+        }
+        v.retain(|_, x| *x != 0);
+        Some(v)
+    };
+    let npublish = tx.directives.iter().filter(|x| matches!(x, Directive::Publish { .. })).count();
+    // expected outputs in template order; None = cannot be evaluated
+    let mut expected: Vec<(usize, Option<Value>)> = vec![];
+    for (i, o) in tx.outputs.iter().enumerate() {
+        let v = eval(&o.amount);
+        if o.optional {
+            match &v {
+                Some(x) if x.is_empty() => continue, // dropped
+                Some(_) => {}
+                None => return, // presence unknown: nothing can be lined up
+            }
+        }
+        expected.push((i, v));
+    }
+    if expected.len() + npublish != d.outputs.len() {
+        // an optional output present / absent against expectation shows up as a count mismatch
+        if tx.outputs.iter().all(|o| eval(&o.amount).is_some()) {
+            let in_range = expected.iter().all(|(_, v)| v.as_ref().map(|x| x.values().all(|a| *a >= 0 && *a <= u64::MAX as i128)).unwrap_or(false));
+            if in_range {
+                rep.violate(
+                    "C02",
+                    "ECHO-output",
+                    "output-count",
+                    format!("{ctx}: the template denotes {} outputs (+{npublish} published) but the body carries {}", expected.len(), d.outputs.len()),
+                );
+            }
+        }
+        return;
+    }
+    for ((i, want), got) in expected.iter().zip(d.outputs.iter()) {
+        let Some(want) = want else { continue };
+        if want.values().any(|a| *a < 0 || *a > u64::MAX as i128) {
+            continue; // BAL's business (known findings live there)
+        }
+        let got = crate::txread::value_of_output(got);
+        if &got != want {
+            let spec = &tx.outputs[*i];
+            let kind = if spec.amount.0.iter().any(|(_, t)| matches!(t, Term::Input(_))) {
+                "change"
+            } else if spec.amount.0.iter().any(|(_, t)| matches!(t, Term::Fees)) {
+                "fee-dependent"
+            } else {
+                "fixed"
+            };
+            rep.violate(
+                "C02",
+                "ECHO-output",
+                kind,
+                format!("{ctx}: output #{i} should hold {} (its amount expression evaluated exactly) but the body holds {}", show_value(want), show_value(&got)),
+            );
+        }
+    }
+    rep.probe("echo-outputs-judged");
+}
+
 pub fn range_class(v: i128) -> String {
     if v < -(1i128 << 64) {
         "below -2^64".into()
